@@ -365,6 +365,12 @@ PREPS = (
     ('sd.req20', 1, (('resolve', 20),)),
     ('sd.reqlong', 1, (('resolve', 'M-2'),)),
     ('sd.res1+req20', 1, (('snl_in', 1), ('resolve', 20))),
+    # (e) a connection just accepted: CC pending, receive window 0 / 1 / 2
+    ('cc.pending.rw0', 0, (('pdu_in', 'connect33'), ('accept',))),
+    ('cc.pending.rw1', 1, (('pdu_in', 'connect33'), ('accept',))),
+    ('cc.pending.rw2', 2, (('pdu_in', 'connect33'), ('accept',))),
+    ('cc.pending.rw0+dm.sap35', 0, (('pdu_in', 'connect33'), ('accept',),
+                                    ('pdu_in', 'dm35'))),
     # combinations
     ('acc1.read+dyn1.read', 1, (('rx', ACC, 1, 1), ('rx', C1, 1, 1))),
     ('acc1.read+dm.sap35', 1, (('rx', ACC, 1, 1), ('pdu_in', 'dm35'))),
@@ -456,6 +462,8 @@ class DeepSpec(Spec):
                 pdus = [pdu.ReceiveReady(36, 41, 0)]
             elif st[1] == 'backlog33':
                 pdus = [pdu.Connect(33, 41), pdu.Connect(33, 42)]
+            elif st[1] == 'connect33':
+                pdus = [pdu.Connect(33, 43)]
             else:
                 pdus = [pdu.Connect(1, 42, sn=b'urn:nfc:sn:none')]
             for p in pdus:
@@ -469,8 +477,14 @@ class DeepSpec(Spec):
             elif st[1] == 'backlog33':
                 assert [p.name for p in w.als.recv_queue] == ['CONNECT']
                 assert [p.name for p in w.als.send_queue] == ['DM']
+            elif st[1] == 'connect33':
+                assert [p.name for p in w.als.recv_queue] == ['CONNECT']
             else:
                 assert [p.name for p in A.sap[1].dmpdu] == ['DM']
+        elif kind == 'accept':
+            w.accepted = getattr(w, 'accepted', []) + [A.accept(w.als)]
+            assert [p.name for p in w.als.send_queue] == ['CC']
+            assert w.als.send_queue[0].rw == self.acc_rw
         elif kind == 'snl_in':
             req = [(i, b'urn:nfc:sn:u%03d' % i) for i in range(st[1])]
             B.sendto(w.rb, pdu.ServiceNameLookup(1, 1, sdreq=req), None, DW)
